@@ -47,7 +47,13 @@ def cases(draw):
     ops = draw(gen.compositions(total)) if total else []
     if draw(st.booleans()) or not ops:
         ops = ops + ["solve"]
-    return {"recipe": recipe, "params": params, "ops": ops}
+    case = {"recipe": recipe, "params": params, "ops": ops}
+    if draw(st.integers(0, 3)) == 0:
+        # another solver on another problem is created and stepped between the calls
+        case["decoy"] = draw(gen.problem_recipe(dims=(1, 2, 3), styles=True))
+    # an observer reads the record between the calls and asks the solver's evolvent for the preimage of stored points
+    case["observer"] = draw(st.integers(0, 3)) == 0
+    return case
 
 
 def body(case):
@@ -70,6 +76,23 @@ def body(case):
             check_search_data(run, who="after DoGlobalIteration(%r) stopped at the float resolution: " % (op,))
             return len(run.problem.log) >= 8, ["N=%d" % run.n, "float-resolution-stop"]
         steps += 1
+        if case.get("decoy") is not None:
+            if steps == 1:
+                decoy = Run(case["decoy"], {"r": 2.5, "eps": 1e-3, "itersLimit": 50}, record=False)
+            try:
+                decoy.step(1)
+            except Exception as e:
+                if "outside of interval" not in str(e):
+                    raise
+        if case.get("observer"):
+            ev = run.solver.evolvent
+            stored = [it for it in run.solver.searchData][1:-1]
+            for it in stored[:3] + stored[-2:]:
+                ev.GetPreimages(it.GetY().floatVariables)
+                ev.GetInverseImage(it.GetY().floatVariables)
+            if stored:
+                best = run.results().bestTrials[0]
+                ev.GetPreimages(best.point.floatVariables)
         items = run.rec.items if len(run.rec.items) == len(run.problem.log) else None
         check_search_data(run, items=items, who="after call %d (%r): " % (steps, op))
     hist = run.history()
@@ -91,6 +114,10 @@ def body(case):
         classes_extra = []
     if case["params"].get("startPoint") is not None:
         classes_extra.append("startPoint-set")
+    if case.get("decoy") is not None:
+        classes_extra.append("decoy-solver")
+    if case.get("observer"):
+        classes_extra.append("observer-queries-evolvent")
     classes = classes_extra + ["N=%d" % run.n, "calls=%d" % min(steps, 5),
                "trials>=8" if len(hist) >= 8 else "trials<8", "interior-insert" if between else "no-interior-insert"]
     return nontrivial, classes, {"case": case, "trials": len(hist), "interior_inserts": between}
